@@ -21,6 +21,7 @@ func usage() {
 
 type opts struct {
 	repo, verif string
+	out         string // evidence / work / replays (default: verif)
 	only        string
 	keep        bool
 	timeout     int
@@ -38,6 +39,9 @@ func parseOpts(args []string) (opts, []string) {
 		case "-verif":
 			i++
 			o.verif = args[i]
+		case "-out":
+			i++
+			o.out = args[i]
 		case "-only":
 			i++
 			o.only = args[i]
@@ -51,6 +55,9 @@ func parseOpts(args []string) (opts, []string) {
 		default:
 			rest = append(rest, args[i])
 		}
+	}
+	if o.out == "" {
+		o.out = o.verif
 	}
 	return o, rest
 }
@@ -252,7 +259,7 @@ func cmdCheck(o opts, prop, tier string) int {
 	for _, m := range e.specErrors {
 		engineErrs = append(engineErrs, "spec: "+m)
 	}
-	qdir := filepath.Join(o.verif, "work", prop)
+	qdir := filepath.Join(o.out, "work", prop)
 	os.RemoveAll(qdir)
 	solveAll(sel, qdir, timeout, tier == "thorough", 6)
 	return report(o, e, prop, tier, seed, sel, frames, engineErrs, time.Since(t0).Seconds(), timeout)
